@@ -8,6 +8,11 @@
 
 double num_of_id(long id);
 cJSON *vb_build(const jv *v);                         /* well-formed tree in allocator blocks (library-owned) */
+/* like vb_build_flagged, and nested containers are shared: the member is a reference node (cJSON_IsReference, as cJSON_AddItemReferenceToObject /
+ * cJSON_CreateObjectReference make it) whose children belong to an owner kept in a pool.  Only for calls that do not edit the document.
+ * An object is shared only when its first key is its smallest one, so that sorting through the reference leaves the owner's head in place. */
+cJSON *vb_build_shared(const jv *v);
+int vb_pool_count(void); cJSON *vb_pool_owner(int i); const jv *vb_pool_value(int i); void vb_pool_release(void);
 cJSON *vb_build_flagged(const jv *v);                 /* same value as the construction API builds it with constant keys and string references: keys and string values live in caller memory */
 /* 1 if tree t denotes exactly value v (shape, order, keys, bytes, number bits / integer view) */
 int vb_equal(const jv *v, const cJSON *t, char *why, size_t wn, int depth);
@@ -15,4 +20,10 @@ int vb_equal(const jv *v, const cJSON *t, char *why, size_t wn, int depth);
 int vb_wellformed(const cJSON *t, char *why, size_t wn, int depth);
 /* stable fingerprint of a tree (fields reachable through the public struct), to show arguments are not modified */
 uint64_t vb_hash(const cJSON *t, int depth);
+/* cJSON_bool parameters: "true" is any non-zero int; the abstract TRUE is concretised by a rotating non-zero value */
+int vb_truthy(int b, unsigned long salt);
+/* leftovers of an edit history: array elements that were once object members keep their old key (cJSON never clears it);
+ * scheme 0: "k<i>", 1: "k<n-1-i>", 2: decimal digits of a wrong index, 3: "value" on every second element. The value denoted is unchanged. */
+void vb_stale_keys(cJSON *t, int scheme);
+void vb_stale_clear(cJSON *t);
 #endif
